@@ -16,12 +16,29 @@ VERIF = build.VERIF
 
 # ---------------------------------------------------------------------------- parser stubs: run the real entry points on a snapshot
 
-def install_parse_stubs(M, snap, native_errors):
+_RESNAP = {}
+
+
+def install_parse_stubs(M, snap, native_errors, text=None):
+    """the ANTLR front half (lexer + parser) is the native one: its result for the text is the snapshot.  With `text` given, a
+    wrapper that hands the library ANOTHER text (truncated, normalised, re-encoded) gets the native parse of that other text"""
     M.env['snap'] = snap
     M.env['listener'] = None
+    state = {'snap': snap, 'errors': native_errors}
 
     def by_content(M_, a):
         p = M_.p
+        if text is not None and isinstance(a[0], str) and a[0] != go_str(text):
+            got = to_pystr(a[0])
+            if got not in _RESNAP:
+                _RESNAP[got] = symgo.native_dump([got])[0]
+            d2 = _RESNAP[got]
+            if d2.get('panic'):
+                raise Unsupported('the wrapper alters the text and the native parser panics on the altered text')
+            state['snap'] = Snapshot(M_.p, d2).load()
+            state['errors'] = d2.get('syntax_errors')
+            M_.env['content_altered'] = got
+            M_.env['snap'] = state['snap']
         rec = Ptr(Cell(p.zero(p.tid_of(ANTLR + '.BaseRecognizer')), tag='stub-recognizer'))
         bp = p.zero(p.tid_of(ANTLR + '.BaseParser'))
         bp[0] = rec
@@ -29,7 +46,7 @@ def install_parse_stubs(M, snap, native_errors):
         pv[0] = Ptr(Cell(bp, tag='stub-baseparser'))
         stub = Ptr(Cell(pv, tag='stub-parser'))
         M_.env['content'] = a[0]
-        return (stub, snap.stream, None)
+        return (stub, state['snap'].stream, None)
     M.intr[PARSER + '.NewPacketDslParserByContent'] = by_content
     M.intr['(*%s.BaseRecognizer).RemoveErrorListeners' % ANTLR] = lambda M_, a: None
     M.intr['(*%s.PacketDslParser).RemoveErrorListeners' % GRAMMAR] = lambda M_, a: None
@@ -42,10 +59,10 @@ def install_parse_stubs(M, snap, native_errors):
 
     def packet(M_, a):
         l = M_.env.get('listener')
-        for e in native_errors or []:
+        for e in state['errors'] or []:
             if l is not None:
                 M_.invoke(l, 'SyntaxError', [None, None, e.get('Line', 1), e.get('Column', 0), go_str(e.get('Msg', 'syntax error')), None], '')
-        return snap.tree
+        return state['snap'].tree
     M.intr['(*%s.PacketDslParser).Packet' % GRAMMAR] = packet
 
 
@@ -396,7 +413,7 @@ def c16_text(t, dump, tier, modes=('dsl', 'file', 'file+readerr', 'file+writeerr
         def run(c, mode=mode):
             M = make_machine(c)
             snap = Snapshot(prog, dump).load()
-            install_parse_stubs(M, snap, dump.get('syntax_errors'))
+            install_parse_stubs(M, snap, dump.get('syntax_errors'), text=t.text)
             M.run_init(MOD + '/cmd') if False else None
             set_global(M, MOD + '/cmd.dsl', go_str(t.text) if mode == 'dsl' else '')
             set_global(M, MOD + '/cmd.file', go_str('/work/in.dsl') if mode.startswith('file') else '')
@@ -425,6 +442,11 @@ def c16_text(t, dump, tier, modes=('dsl', 'file', 'file+readerr', 'file+writeerr
             ctl, paths = explore([], run, 16)
         except Unsupported as u:
             stats['inconclusive'].append('%s: %s' % (mode, str(u)[:150]))
+            continue
+        except (GoPanic, GoExit):
+            raise
+        except Exception as ex:           # an engine defect in one entry point must not silence the others
+            stats['inconclusive'].append('%s: engine error %s: %s' % (mode, type(ex).__name__, str(ex)[:120]))
             continue
         for (kind, val), pc in paths:
             stats['paths'] += 1
@@ -473,7 +495,7 @@ def c16_text(t, dump, tier, modes=('dsl', 'file', 'file+readerr', 'file+writeerr
         def run2(c):
             M = make_machine(c)
             snap = Snapshot(prog, dump).load()
-            install_parse_stubs(M, snap, dump.get('syntax_errors'))
+            install_parse_stubs(M, snap, dump.get('syntax_errors'), text=t.text)
             install_cgo_stubs(M)
             r = M.call(exp, [('cstr', go_str(t.text))])
             return r
@@ -492,6 +514,10 @@ def c16_text(t, dump, tier, modes=('dsl', 'file', 'file+readerr', 'file+writeerr
                         res.append(BFinding('C16', 'lib:FormatPacketDslExport', t.tag, 'error-not-prefixed', 'syntax error: C export returns %r' % ((s or '')[:100]), {'text': t.text}))
         except Unsupported as u:
             stats['inconclusive'].append('export: %s' % str(u)[:150])
+        except (GoPanic, GoExit):
+            raise
+        except Exception as ex:
+            stats['inconclusive'].append('export: engine error %s: %s' % (type(ex).__name__, str(ex)[:120]))
     elif export:
         stats['inconclusive'].append('FormatPacketDslExport not in the SSA dump')
     return res, stats
@@ -504,6 +530,12 @@ def install_cgo_stubs(M):
             M.intr[fid] = lambda M_, a: a[0][1] if isinstance(a[0], tuple) else ''
         elif base == '_Cfunc_CString':
             M.intr[fid] = lambda M_, a: ('cstr', a[0])
+        elif base == '_Cfunc_strlen':
+            M.intr[fid] = lambda M_, a: len(a[0][1]) if isinstance(a[0], tuple) else 0
+        elif base == '_Cfunc_strnlen':
+            M.intr[fid] = lambda M_, a: min(len(a[0][1]), a[1]) if isinstance(a[0], tuple) else 0
+        elif base == '_Cfunc_GoStringN':
+            M.intr[fid] = lambda M_, a: a[0][1][:max(0, a[1])] if isinstance(a[0], tuple) else ''
         elif base.startswith('_cgo_') or base.startswith('_Cfunc_') or base.startswith('_cgoCheck'):
             M.intr.setdefault(fid, lambda M_, a: None)
 
@@ -512,7 +544,7 @@ def lib_format(t, dump, prog):
     def run(c):
         M = make_machine(c)
         snap = Snapshot(prog, dump).load()
-        install_parse_stubs(M, snap, dump.get('syntax_errors'))
+        install_parse_stubs(M, snap, dump.get('syntax_errors'), text=t.text)
         return M.call(PARSER + '.FormatPacketDsl', [go_str(t.text)])
     try:
         ctl, paths = explore([], run, 8)
@@ -570,6 +602,17 @@ def install_cobra_stubs(M):
         return None
     M.intr['(*github.com/spf13/pflag.FlagSet).StringVarP'] = stringvarp
 
+    def slicevarp(kind):
+        def f(M_, a):
+            fs, ptr, name, short = a[0], a[1], a[2], a[3]
+            reg['flags'].setdefault(fs[1], []).append((ptr, name, short, kind))
+            M_.store(ptr, a[4])
+            return None
+        return f
+    # pflag: a StringSlice value is read as one CSV record and appended; a StringArray value is appended as it is
+    M.intr['(*github.com/spf13/pflag.FlagSet).StringSliceVarP'] = slicevarp('slice')
+    M.intr['(*github.com/spf13/pflag.FlagSet).StringArrayVarP'] = slicevarp('array')
+
     def addcommand(M_, a):
         for c in (a[1].items() if a[1] is not None else []):
             reg['children'].append(c)
@@ -615,7 +658,23 @@ def install_cobra_stubs(M):
             if val is None:
                 i += 1
                 val = args[i] if i < len(args) else ''
-            M_.store(hit[0][0], go_str(val))
+            kind = hit[0][3] if len(hit[0]) > 3 else 'string'
+            if kind == 'string':
+                M_.store(hit[0][0], go_str(val))
+            else:
+                import csv as _csv
+                if kind == 'slice':
+                    try:
+                        parts = next(_csv.reader([val], strict=True)) if val != '' else []
+                    except Exception:
+                        return mkerr('invalid argument %r for flag: parse error' % val)
+                else:
+                    parts = [val]
+                seen_key = ('slice-set', id(hit[0][0].cell) if hasattr(hit[0][0], 'cell') else 0, to_pystr(hit[0][1]))
+                cur = M_.load(hit[0][0])
+                old = list(cur.items()) if (cur is not None and seen_key in reg) else []       # the first use replaces the default
+                reg[seen_key] = True
+                M_.store(hit[0][0], M_.mkslice(old + [go_str(x) for x in parts]))
             i += 1
         st = M_.load(cmd)
         run, rune = st[names.index('Run')], st[names.index('RunE')]
@@ -662,7 +721,7 @@ def c16_execute(t, dump, tier, lib):
         def run(c, argv=argv):
             M = make_machine(c)
             snap = Snapshot(prog, dump).load()
-            install_parse_stubs(M, snap, dump.get('syntax_errors'))
+            install_parse_stubs(M, snap, dump.get('syntax_errors'), text=t.text)
             install_cobra_stubs(M)
             M.run_init(MOD + '/cmd')
             M.store(M.gptr('os.Args', gtid(M, 'os.Args')), M.mkslice([go_str(x) for x in argv]))
@@ -735,6 +794,64 @@ def c16_execute(t, dump, tier, lib):
                 res.append(BFinding('C16', 'cmd:Execute compile', t.tag, 'implicit-differs:' + '_'.join(x for x in tail if not x.startswith('-'))[:40],
                                     'fin-protoc %s: exit %s and %d files; with the word "compile": exit %s and %d files' % (
                                         ' '.join(tail), outs[0][0], len(outs[0][1]), outs[1][0], len(outs[1][1])), {'text': t.text, 'argv': tail}))
+    # output directories with unusual names (comma, blank, quote, equals sign): the files of every requested target land under
+    # exactly the directory that was named - compared with a run that uses plain names, directory prefixes substituted
+    if lib_err is None and not dump.get('syntax_errors') and t.tag.startswith(('p:many', 'p:oneline', 'c:everywhere', 'f:match_list', 'f:inline_rep', 'l:acronym')):
+        odd = {'g': 'gen,v2/go', 'p': 'a b/py', 'j': 'q"x/java', 'r': 'k=v/rs'}
+        plain = {'g': 'ref/go', 'p': 'ref/py', 'j': 'ref/java', 'r': 'ref/rs'}
+        got = {}
+        for label, dirs in (('odd', odd), ('plain', plain)):
+            argv = ['fin-protoc', 'compile', '-f', 'in.dsl']
+            for k, d in dirs.items():
+                argv += ['-' + k, d]
+
+            def rund(c, argv=argv):
+                M = make_machine(c)
+                snap = Snapshot(prog, dump).load()
+                install_parse_stubs(M, snap, None)
+                install_cobra_stubs(M)
+                M.run_init(MOD + '/cmd')
+                m = M.call(PARSER + '.VerifVisit', [snap.tree])
+                M.env['parse_result'] = m
+                M.store(M.gptr('os.Args', gtid(M, 'os.Args')), M.mkslice([go_str(x) for x in argv]))
+                M.env['fs'].clear()
+                M.effects = []
+                M.stdout = []
+                code = 0
+                try:
+                    M.call(MOD + '/cmd.Execute', [])
+                except GoExit as ge:
+                    code = ge.code
+                return code, dict(M.env['fs'])
+            try:
+                _, pp = explore([], rund, 8)
+                vals = [v for (k, v), pc in pp if k == 'ok']
+                stats['paths'] += len(pp)
+                got[label] = vals[0] if len(vals) == 1 else None
+            except Unsupported as u:
+                stats['inconclusive'].append('execute compile (directory names): %s' % str(u)[:120])
+                got[label] = None
+            except (GoPanic, GoExit):
+                raise
+            except Exception as ex:
+                stats['inconclusive'].append('execute compile (directory names): engine error %s: %s' % (type(ex).__name__, str(ex)[:100]))
+                got[label] = None
+        if got.get('odd') is not None and got.get('plain') is not None:
+            def norm(fs, dirs):
+                out = {}
+                for path, data in fs.items():
+                    key = path
+                    for k, d in dirs.items():
+                        for pre in (d + '/', '/' + d + '/', './' + d + '/'):
+                            if path.startswith(pre):
+                                key = '<%s>/' % k + path[len(pre):]
+                    out[key] = len(data) if isinstance(data, (bytes, str, list)) else 0
+                return out
+            a_, b_ = norm(got['odd'][1], odd), norm(got['plain'][1], plain)
+            if got['odd'][0] != got['plain'][0] or sorted(a_) != sorted(b_):
+                res.append(BFinding('C16', 'cmd:Execute compile', t.tag, 'directory-name',
+                                    'output directories %s: exit %s, files %s; with plain names: exit %s, files %s' % (
+                                        list(odd.values()), got['odd'][0], sorted(a_)[:4], got['plain'][0], sorted(b_)[:4]), {'text': t.text, 'argv': ['compile', '-f', 'in.dsl'] + [x for k, d in odd.items() for x in ('-' + k, d)]}))
     return res, stats
 
 
